@@ -100,6 +100,7 @@ def c15_rf19(run):
     run.min_instances('RF94', 150)
     rf_proto.rf102(run)
     rf_tables.rf134(run)
+    rf_tables.rf145(run)
 
 
 def c15_rf16h(run):
@@ -239,6 +240,7 @@ def c10_vocab(run):
     rf_vocab.rf106(run)
     rf_vocab.rf116(run)
     rf_vocab.rf118(run, False)
+    rf_vocab.rf143(run)
 
 
 def c17_rf2(run):
@@ -283,6 +285,7 @@ def c12_rf13(run):
     rf_bounds.rf13c(run)
     rf_bounds.rf105(run)
     rf_bounds.rf135(run)
+    rf_bounds.rf146(run)
     run.min_instances('RF13c', 2)
 
 
@@ -334,6 +337,7 @@ def c01_rf18(run):
     rf_fold.rf48b(run)
     rf_flow.rf131(run)
     rf_proto.rf138(run)
+    rf_x86.rf140(run)
 
 
 def c04_rf18(run):
@@ -364,6 +368,7 @@ def c04_rf18(run):
     rf_inline.rf98(run)
     rf_inline.rf113(run)
     rf_fold.rf48b(run)
+    rf_fold.rf142(run)
     rf_fold.rf100(run)
     rf_flow.rf71(run, units=('mir',))
     run.min_instances('RF71', 3)
@@ -441,6 +446,7 @@ def c03_rf11(run):
     rf_templates.rf11a(run)
     rf_dispatch.rf7g(run)
     run.min_instances('RF7g', 60)
+    rf_code.rf4(run)
     rf_code.rf4d(run)
     rf_iface.rf31a(run)
     rf_iface.rf31b(run)
@@ -457,6 +463,7 @@ def c03_rf11(run):
     rf_x86.rf104(run)
     rf_x86.rf124(run)
     rf_iface.rf132(run)
+    rf_iface.rf147(run)
     rf_abi.rf111(run)
 
 
@@ -501,6 +508,7 @@ def c05_rf10(run):
     run.min_instances('RF7f', 30)
     rf_abi.rf126(run)
     rf_abi.rf133(run)
+    rf_abi.rf144(run)
 
 
 def c06_rf10(run):
@@ -519,6 +527,7 @@ def c06_rf10(run):
     rf_abi.rf111(run)
     rf_abi.rf127(run)
     rf_abi.rf133(run)
+    rf_iface.rf147(run)
 
 
 def c02_rf9(run):
@@ -548,6 +557,7 @@ def c02_rf26(run):
     rf_fold.rf86(run)
     rf_fold.rf87(run)
     rf_fold.rf100(run)
+    rf_fold.rf141(run)
 
 
 PLAN = {
